@@ -494,6 +494,15 @@ LinesGrammar == NumberActions([rules |-> <<[name |-> "A", body |-> SeqE(<<Plus(R
                                            [name |-> "L", body |-> SeqE(<<Cap(Star(Rng(97, 98))), Act(0), Chr(10)>>)]>>])
 LinesInputs == << <<97, 10, 98, 10, 100>>, <<10, 10, 100>>, <<97, 98, 10, 97, 100, 10>>, <<100>>, <<97, 10, 98, 98, 10, 97, 97, 100>>,
                   <<98, 10, 10, 10, 100, 10>>, <<97, 10>>, <<97, 100>> >>
+\* a fixed grammar of the bytes family whose token stream tells how every rune of the Buffer was decoded
+\* (ASCII / Latin-1 / U+FFFD / astral / other): a lone invalid byte must be read as U+FFFD, never as the
+\* code point of the same number (seed C13G), whatever else the input holds
+ByteClassGrammar == NumberActions([rules |-> <<[name |-> "A", body |-> SeqE(<<Star(AltE(<<Ref("L"), Ref("H"), Ref("R"), Ref("S"), Ref("D")>>)), Not(Dot)>>)],
+                                               [name |-> "L", body |-> Rng(0, 127)],
+                                               [name |-> "H", body |-> Rng(128, 255)],
+                                               [name |-> "R", body |-> Chr(65533)],
+                                               [name |-> "S", body |-> Rng(65536, 1114111)],
+                                               [name |-> "D", body |-> Dot]>>])
 \* a fixed scenario that reproduces known finding F12-2 (more than 65535 tokens under uint16) in every run of the reuse family
 F122Grammar == NumberActions([rules |-> <<[name |-> "A", body |-> SeqE(<<Star(AltE(<<Ref("B"), Dot>>)), Not(Dot)>>)],
                                           [name |-> "B", body |-> Ref("C")],
@@ -621,6 +630,7 @@ Plan(G) ==
 
 Candidate(n) == IF FAMILY = "reuse" /\ n = 1 THEN F122Grammar
                 ELSE IF FAMILY = "reuse" /\ n = 2 THEN LinesGrammar
+                ELSE IF FAMILY = "bytes" /\ n = 1 THEN ByteClassGrammar
                 ELSE IF FAMILY = "switch" /\ n = 1 THEN SwitchPinned1
                 ELSE IF FAMILY = "switch" /\ n = 2 THEN SwitchPinned2
                 ELSE IF FAMILY = "switch" /\ n = 3 THEN SwitchPinned3
